@@ -49,6 +49,7 @@ type Req struct {
 	EventSubbed bool // event.<name> was subscribed when the request was sent
 	SubGen      int  // generation of that subscription
 	Governed    string
+	GotData     bool // a get that was answered with the resource (not an error)
 }
 
 // Msg is something in flight towards the gateway.
@@ -301,6 +302,9 @@ func (t *Transport) SendRequest(subj string, payload []byte, cb mq.Response) {
 		s.mu.Unlock()
 		go cb("", nil, errors.New("connection closed"))
 		return
+	}
+	if name, ok := s.querySubj[subj]; ok {
+		r.Type, r.Name = "query", name
 	}
 	if r.CID != "" {
 		if i, ok := s.cidIdx[r.CID]; ok {
